@@ -103,6 +103,77 @@ pub fn residual_diff(w: &mut World, to: usize, base: &VGroup, g: &VGroup) -> Vec
     d
 }
 
+/// Genuine messages of a sibling group (same suite, same epoch number, other group id)
+/// delivered into this group: member messages, and messages of senders that are not bound
+/// to a group by the signature context (an outsider proposing itself).
+pub fn sibling_messages(w: &mut World, rng: &mut Rng, ext_signer: &Option<(mls_rs_core::crypto::SignatureSecretKey, mls_rs::identity::SigningIdentity)>) -> Vec<(&'static str, Vec<u8>)> {
+    let cur = w.epoch();
+    let act = w.active();
+    if cur > 48 || act.is_empty() {
+        return vec![];
+    }
+    let prov = w.cfg.provs[rng.below(w.cfg.provs.len())];
+    let cs = w.suite_of(prov);
+    let mk = |name: &[u8], w: &World| {
+        let (sk, pk) = cs.signature_key_generate().ok()?;
+        let stores = Stores::new(crate::store::Backend::Mem, 3);
+        Some(make_client(name, prov, 995, w.cfg.suite, sk, pk, &stores, &VIdent::default(), w.cfg.rules(), None).0)
+    };
+    let (Some(creator), Some(outsider)) = (mk(b"sib0", w), mk(b"sibx", w)) else { return vec![] };
+    let gce = w.base_gce();
+    let Ok(Ok(mut g2)) = guarded(|| creator.create_group(gce, Default::default(), None)) else { return vec![] };
+    while g2.current_epoch() < cur {
+        if !matches!(guarded(|| g2.commit(vec![])), Ok(Ok(_))) || !matches!(guarded(|| g2.apply_pending_commit()), Ok(Ok(_))) {
+            return vec![];
+        }
+    }
+    let mut msgs: Vec<(&'static str, Vec<u8>)> = vec![];
+    if let Ok(Ok(gi2)) = guarded(|| g2.group_info_message_allowing_ext_commit(true)) {
+        if let Ok(Ok(m)) = guarded(|| outsider.external_add_proposal(&gi2, None, vec![], Default::default(), Default::default(), None)) {
+            if let Ok(b) = m.to_bytes() {
+                msgs.push(("new_member_proposal_of_sibling_group", b));
+            }
+        }
+    }
+    // an external sender authorised in both groups (same signer, same index, same epoch)
+    if let Some((sk, si)) = ext_signer.clone() {
+        use mls_rs::external_client::builder::ExternalClientBuilder;
+        let ec = ExternalClientBuilder::new()
+            .identity_provider(VIdent::default())
+            .crypto_provider(crate::anycrypto::AnyCrypto::new(prov))
+            .extension_types([mls_rs_core::extension::ExtensionType::new(EXT_A), mls_rs_core::extension::ExtensionType::new(EXT_B)])
+            .custom_proposal_types([mls_rs_core::group::ProposalType::new(CUSTOM_PROP), mls_rs_core::group::ProposalType::new(CUSTOM_PROP_PATH)])
+            .signer(sk, si)
+            .build();
+        if let Ok(Ok(gi2)) = guarded(|| g2.group_info_message(true)) {
+            if let Ok(Ok(mut eg)) = guarded(|| ec.observe_group(gi2, None, None)) {
+                if let Ok(Ok(m)) = guarded(|| eg.propose_remove(0, vec![])) {
+                    if let Ok(b) = m.to_bytes() {
+                        msgs.push(("external_sender_proposal_of_sibling_group", b));
+                    }
+                }
+            }
+        }
+    }
+    if let Ok(Ok(m)) = guarded(|| g2.propose_group_context_extensions(w.base_gce(), vec![])) {
+        if let Ok(b) = m.to_bytes() {
+            msgs.push(("member_proposal_of_sibling_group", b));
+        }
+    }
+    if let Ok(Ok(m)) = guarded(|| g2.encrypt_application_message(b"sibling", vec![])) {
+        if let Ok(b) = m.to_bytes() {
+            msgs.push(("application_message_of_sibling_group", b));
+        }
+    }
+    if let Ok(Ok(o)) = guarded(|| g2.commit(vec![])) {
+        if let Ok(b) = o.commit_message.to_bytes() {
+            msgs.push(("commit_of_sibling_group", b));
+        }
+    }
+    msgs
+}
+
+
 enum Outcome {
     DecodeReject,
     Rejected(String),
@@ -635,73 +706,11 @@ impl Tamper {
         }
     }
 
-    /// Genuine messages of a sibling group (same suite, same epoch number, other group id)
-    /// delivered into this group: member messages, and messages of senders that are not bound
-    /// to a group by the signature context (an outsider proposing itself).
+    /// Genuine messages of a sibling group delivered into this group (see `sibling_messages`).
     fn cross_group(&mut self, w: &mut World) {
-        let cur = w.epoch();
         let act = w.active();
-        if cur > 48 || act.is_empty() {
-            return;
-        }
-        let prov = w.cfg.provs[self.rng.below(w.cfg.provs.len())];
-        let cs = w.suite_of(prov);
-        let mk = |name: &[u8], w: &World| {
-            let (sk, pk) = cs.signature_key_generate().ok()?;
-            let stores = Stores::new(crate::store::Backend::Mem, 3);
-            Some(make_client(name, prov, 995, w.cfg.suite, sk, pk, &stores, &VIdent::default(), w.cfg.rules(), None).0)
-        };
-        let (Some(creator), Some(outsider)) = (mk(b"sib0", w), mk(b"sibx", w)) else { return };
-        let gce = w.base_gce();
-        let Ok(Ok(mut g2)) = guarded(|| creator.create_group(gce, Default::default(), None)) else { return };
-        while g2.current_epoch() < cur {
-            if !matches!(guarded(|| g2.commit(vec![])), Ok(Ok(_))) || !matches!(guarded(|| g2.apply_pending_commit()), Ok(Ok(_))) {
-                return;
-            }
-        }
-        let mut msgs: Vec<(&'static str, Vec<u8>)> = vec![];
-        if let Ok(Ok(gi2)) = guarded(|| g2.group_info_message_allowing_ext_commit(true)) {
-            if let Ok(Ok(m)) = guarded(|| outsider.external_add_proposal(&gi2, None, vec![], Default::default(), Default::default(), None)) {
-                if let Ok(b) = m.to_bytes() {
-                    msgs.push(("new_member_proposal_of_sibling_group", b));
-                }
-            }
-        }
-        // an external sender authorised in both groups (same signer, same index, same epoch)
-        if let Some((sk, si)) = self.ext_signer.clone() {
-            use mls_rs::external_client::builder::ExternalClientBuilder;
-            let ec = ExternalClientBuilder::new()
-                .identity_provider(VIdent::default())
-                .crypto_provider(crate::anycrypto::AnyCrypto::new(prov))
-                .extension_types([mls_rs_core::extension::ExtensionType::new(EXT_A), mls_rs_core::extension::ExtensionType::new(EXT_B)])
-                .custom_proposal_types([mls_rs_core::group::ProposalType::new(CUSTOM_PROP), mls_rs_core::group::ProposalType::new(CUSTOM_PROP_PATH)])
-                .signer(sk, si)
-                .build();
-            if let Ok(Ok(gi2)) = guarded(|| g2.group_info_message(true)) {
-                if let Ok(Ok(mut eg)) = guarded(|| ec.observe_group(gi2, None, None)) {
-                    if let Ok(Ok(m)) = guarded(|| eg.propose_remove(0, vec![])) {
-                        if let Ok(b) = m.to_bytes() {
-                            msgs.push(("external_sender_proposal_of_sibling_group", b));
-                        }
-                    }
-                }
-            }
-        }
-        if let Ok(Ok(m)) = guarded(|| g2.propose_group_context_extensions(w.base_gce(), vec![])) {
-            if let Ok(b) = m.to_bytes() {
-                msgs.push(("member_proposal_of_sibling_group", b));
-            }
-        }
-        if let Ok(Ok(m)) = guarded(|| g2.encrypt_application_message(b"sibling", vec![])) {
-            if let Ok(b) = m.to_bytes() {
-                msgs.push(("application_message_of_sibling_group", b));
-            }
-        }
-        if let Ok(Ok(o)) = guarded(|| g2.commit(vec![])) {
-            if let Ok(b) = o.commit_message.to_bytes() {
-                msgs.push(("commit_of_sibling_group", b));
-            }
-        }
+        let signer = self.ext_signer.clone();
+        let msgs = sibling_messages(w, &mut self.rng, &signer);
         for (class, b) in msgs {
             for &to in act.iter().take(2) {
                 self.trial_opt(w, to, "cross_group", class, None, &b);
